@@ -1403,6 +1403,8 @@ impl<R: Read> Vp8Decoder<R> {
     fn read_macroblock_header(&mut self, mbx: usize) -> Result<MacroBlock, DecodingError> {
         let mut mb = MacroBlock::default();
         let mut res = self.b.start_accumulated_result();
+        #[cfg(image_webp_verif)]
+        crate::verif_hooks::note_mb_header(mbx);
 
         if self.segments_enabled && self.segments_update_map {
             mb.segmentid =
@@ -1447,6 +1449,8 @@ impl<R: Read> Vp8Decoder<R> {
                             let bmode = IntraMode::from_i8(intra)
                                 .ok_or(DecodingError::IntraPredictionModeInvalid(intra))?;
                             mb.bpred[x + y * 4] = bmode;
+                            #[cfg(image_webp_verif)]
+                            crate::verif_hooks::note_bmode(top as u32, left as u32, bmode as u32);
 
                             self.top[mbx].bpred[12 + x] = bmode;
                             self.left.bpred[y] = bmode;
@@ -1454,6 +1458,8 @@ impl<R: Read> Vp8Decoder<R> {
                     }
                 }
                 Some(mode) => {
+                    #[cfg(image_webp_verif)]
+                    crate::verif_hooks::note_implied_mode(mode as u32);
                     for i in 0usize..4 {
                         mb.bpred[12 + i] = mode;
                         self.left.bpred[i] = mode;
@@ -3102,6 +3108,11 @@ pub(crate) fn verif_read_tree_with_probs(
 }
 
 /// `calculate_filter_parameters` on a decoder whose header fields are set directly.
+#[cfg(image_webp_verif)]
+pub(crate) fn verif_intra_mode_default() -> u32 {
+    IntraMode::default() as u32
+}
+
 #[cfg(image_webp_verif)]
 #[allow(clippy::too_many_arguments)]
 pub(crate) fn verif_filter_parameters(
